@@ -65,4 +65,8 @@ Fixpoint last_info (pr : params) (ep : N) (ops : list op) (acc : option (list su
            else Some (subscription_info (agg_target pr) (sign_ok_of sign_fail) ds)
          else acc)
   | OAtt _ _ _ _ _ :: ops' => last_info pr ep ops' acc
+  | OHead hslot cur :: ops' =>
+      (* a head event of the current slot drops the epoch once the head's epoch is two or more
+         epochs later *)
+      last_info pr ep ops' (if (hslot =? cur) && stale64 ep (hslot / spe pr) then None else acc)
   end.
